@@ -21,6 +21,7 @@ RULE = (
     "Non-trivial = c >= 1 (so a bound equal to c is exercised) and at least one node inside the searched region lacks the "
     "attribute, or c >= 2 (find must raise). Cases hashed for distinctness."
     ' Also: interdependent filter_/stop closures compared with PreOrderIter on fresh copies; values whose __eq__ raises AttributeError; callbacks failing with TypeError on their second call.'
+    ' Rounds 11-14: every exception class from callbacks, classes as predicates, fractional maxlevels and count bounds, callable values.'
 )
 ASSUMPTIONS = [
     "reference result = reference pre-order restricted as in C06",
